@@ -397,6 +397,18 @@ def scoreXQ (w : List XQ) (feats : List (List XQ)) : List XQ := feats.map fun ro
 def fallbackXQ (ln1p : XQ → XQ) (poisson longestYPct : XQ) : XQ :=
   fallback (α := XQ) (β := XQ) id ln1p (some 3) poisson longestYPct
 
+/-- the guard of the poisson feature in `score_psms`, over `XQ`:
+    `match (-poisson).ln_1p() { x if x.is_finite() => x, _ => 3.5 }` -/
+def poissonFeatureXQ (ln1p : XQ → XQ) (poisson : XQ) : XQ :=
+  match ln1p (-poisson) with
+  | some x => some x
+  | none => some (7 / 2)
+
+/-- one row of the feature matrix over `XQ`: the 19 other (already transformed) features with the
+    guarded poisson feature inserted at its position 8 (`FEATURE_NAMES[8] = "ln1p(-poisson)"`) -/
+def featureRowXQ (ln1p : XQ → XQ) (poisson : XQ) (others : List XQ) : List XQ :=
+  others.take 8 ++ poissonFeatureXQ ln1p poisson :: others.drop 8
+
 /-! ## executable specification (exact ℚ), evaluated by the driver on the IMPLEMENTATION's outputs -/
 
 namespace Q
